@@ -93,6 +93,14 @@ def oracle(ctx, case, io):
                 if pre["blob"].get(s_) == 200 and post["blob"].get(s_) != 200 and lst:
                     ctx.violation("the collection removed %s but kept the referrers response recorded for it (still listing %s)" % (s_[:19], [x[:19] for x in lst]),
                                   hist(subject=s_), "C06:response-of-removed-subject-kept")
+        # exactly the garbage, the other way round (every policy): the referrers of a tagged manifest that stays are not garbage
+        roots_ = [d_ for t_, (s_, d_) in pre["tag"].items() if s_ == 200]
+        R_, RM_ = c05.retained(gg, pre, roots_)
+        for s_, lst in pre["refs"].items():
+            if s_ in roots_ and pre["blob"].get(s_) == 200 and post["blob"].get(s_) == 200:
+                gone = set(lst) - set(post["refs"].get(s_, []))
+                if gone:
+                    ctx.violation("the collection removed the referrers %s of the tagged manifest %s, which stays" % (sorted(x[:19] for x in gone), s_[:19]), hist(subject=s_), "C06:referrers-of-retained-removed")
         # no index entry without content
         for d, (s, errs) in post["man"].items():
             if s != 200 and "MANIFEST_BLOB_UNKNOWN" in (errs or []):
@@ -334,7 +342,7 @@ def late_blob_check(ctx):
     grace period is over - the repository stays in the range of the passes because of that blob"""
     binp = api_binary(ctx)
     cases = []
-    n = 1 if ctx.tier == "quick" else 4
+    n = 3 if ctx.tier == "quick" else 9
     for i in range(n):
         for store in ("mem", "dir"):
             cfg = b"{}"
@@ -343,10 +351,22 @@ def late_blob_check(ctx):
             gp = lambda secs: dict(kind="gcpass", impl=dict(op="gcpass", secs=secs, partial=True), model="(skip)")
             steps = [upload_post("a", digest=dg("sha256", cfg), body=cfg), manifest_put("a", "t1", m, ctype=MT_OCI_M),
                      special("sleep", secs=1.1)]
-            if i % 2 == 0:
+            if i % 3 == 0:
                 steps.append(upload_post("a", digest=dg("sha256", X), body=X))
-            else:
+            elif i % 3 == 1:
                 steps += [upload_post("a"), upload_put("a", "$SID%d$" % len(steps), None, dg("sha256", X), state_token(0), X)]
+            else:
+                # a slow upload: the session is opened, the content completed more than a pass and a grace period later, and the
+                # index is read (and found changed on disk? no: re-read) before the next pass
+                ks_ = len(steps)
+                steps.append(upload_post("a"))
+                off = 0
+                for q in range(6):
+                    # (a chunk now and then keeps the session from expiring: its lifetime is the grace period)
+                    part = X[off:off + 4]
+                    steps += [special("sleep", secs=0.2), upload_patch("a", "$SID%d$" % ks_, None, state_token(off), part)]
+                    off += len(part)
+                steps += [upload_put("a", "$SID%d$" % ks_, None, dg("sha256", X), state_token(off), X[off:]), manifest_get("a", "t1"), tag_list("a")]
             for j in range(9):
                 steps += [gp(0.1), dict(blob_get("a", dg("sha256", X), head=True), passno=j + 1), special("sleep", secs=0.1)]
             steps += [manifest_get("a", "t1")]
@@ -364,7 +384,7 @@ def late_blob_check(ctx):
         # passes run every 0.2 s; the grace period (0.3 s) is over from the third pass on: two more passes for scheduling slack
         if not any(s_ == 404 for p_, s_ in seen if p_ >= 3):
             nbad += 1
-            ctx.violation("%s store: an unreferenced blob uploaded 1.1 s after the last index write is still there after %d store-wide passes, 1.5 s past its grace period (answers per pass: %s): "
+            ctx.violation("%s store: an unreferenced blob uploaded (in one request, through a session, or through a slow session kept open for 1.2 s) more than a second after the last index write is still there after %d store-wide passes, 1.5 s past its grace period (answers per pass: %s): "
                           "the pass no longer visits the repository" % (c["conf"]["store"], len(seen), [s_ for _, s_ in seen]), dict(case=replayable(c), answers=seen), "C06:pass-skips-repository-with-late-blob")
     return len(cases), nbad
 
